@@ -45,7 +45,7 @@ class SimOS:
         self.stats = stats if stats is not None else {}
         self.fds: dict[int, dict[int, _OpenFile]] = {}
         self.locks: dict[str, dict[int, str]] = {}      # inode -> {pid: 'S'|'X'}
-        self.lock_waits: dict[int, set] = {}            # pid -> set of pids it waits for
+        self.lock_waits: dict[int, list] = {}           # pid -> [set of pids it waits for, ...]
         self.produced_errors: list = []                 # OSErrors this kernel raised
         self.dead: set = set()
 
@@ -81,6 +81,7 @@ class SimOS:
     # ---- syscalls
     def open(self, pid, path, flags, mode=0o777):
         if self.k.inert():
+            self.k.abort_if_killed()
             return -1
         self.k.yield_point('open', _os.path.basename(path))
         self._fault('open', pid, path=path)
@@ -114,6 +115,8 @@ class SimOS:
 
     def lockf(self, pid, fd, op):
         if self.k.inert():
+            if not (op & LOCK_UN):
+                self.k.abort_if_killed()
             return
         self.k.yield_point('lockf', (fd, op))
         f = self.fds.get(pid, {}).get(fd)
